@@ -81,6 +81,31 @@ Print Assumptions band_det_spec.
 Example band_det_spec_nonvacuous : PivLaws ratArith.
 Proof. exact rat_PivLaws. Qed.
 
+(* ---- the same two theorems AT THE EXACT TIER ITSELF: AQ (Coq's canonical rationals Qc) is the instance of the model that the
+   correspondence check runs against the implementation's Rat.  Bridge/BandDetQc.v gives Qc its mathcomp fieldType
+   structure (== is Qc_eqb; + * - / are Qcplus Qcmult Qcopp Qcinv) and shows ArithOf Qc_fieldType Qc_abs Qc_ltb Qc_leb = AQ by
+   reflexivity, so the theorems above apply to AQ verbatim.  band_det_spec_Qc mentions no mathcomp notion: it is an
+   equation between the two model functions that the checks C04 and C02 tie to Banded::det and Matrix::determinant. ---- *)
+From OV Require Import Proofs.LUQc Bridge.BandDetQc.
+Theorem band_det_spec_Qc : forall B : banded AQ, wfB B -> bm1 B <= bn B ->
+  @band_det AQ B = @Solve.determinant AQ (@tabulate AQ (bn B) (bn B) (@dense_entry AQ B)).
+Proof. intros B. exact (band_det_spec_Qc_lemma (B := B)). Qed.
+Check band_det_spec_Qc : forall B : banded AQ, wfB B -> bm1 B <= bn B ->
+  @band_det AQ B = @Solve.determinant AQ (@tabulate AQ (bn B) (bn B) (@dense_entry AQ B)).
+Print Assumptions band_det_spec_Qc.
+Example band_det_spec_Qc_nonvacuous :    (* ex_S: 4 x 4, m1 = 2, m2 = 1, two exchanges, loud padding; both sides are -12 *)
+  wfB ex_S /\ bm1 ex_S <= bn ex_S /\ @band_det AQ ex_S = Ok (q (-12) 1) /\
+  @Solve.determinant AQ (@tabulate AQ (bn ex_S) (bn ex_S) (@dense_entry AQ ex_S)) = Ok (q (-12) 1).
+Proof. split; [repeat split|]. split; [cbn; lia|]. split; vm_compute; reflexivity. Qed.
+Theorem band_det_is_det_Qc : forall B : banded AQ, wfB B -> bm1 B <= bn B ->
+  @band_det AQ B = Ok (@matrix.determinant (ssralg.GRing.Field.ringType Qc_fieldType) (bn B)
+                         (@mx_of Qc_fieldType (bn B) (@dense_entry AQ B))).
+Proof. intros B. exact (band_det_is_det_Qc_lemma (B := B)). Qed.
+Check band_det_is_det_Qc : forall B : banded AQ, wfB B -> bm1 B <= bn B ->
+  @band_det AQ B = Ok (@matrix.determinant (ssralg.GRing.Field.ringType Qc_fieldType) (bn B)
+                         (@mx_of Qc_fieldType (bn B) (@dense_entry AQ B))).
+Print Assumptions band_det_is_det_Qc.
+
 (* ---- m1 <= n is necessary, and what happens without it is known exactly: on a well-formed band with m1 > n, over ANY
    arithmetic (f64 included), decompose falls off the compact buffer in its first loop (the left shift reaches row n),
    so det and solve panic with an index error and never return a value (solve's own size guard comes first). ---- *)
